@@ -382,6 +382,8 @@ def _check(prop, tier, replay, spec, seed, jobs, t0, scratch, env, known):
         for st in stages:
             if tier == 'quick' and st.get('thorough_only'):
                 continue
+            if st.get('engine') == 'mpiexec':
+                continue
             k = (st['harness'], st.get('variant', 'core'))
             if k not in exes:
                 exes[k] = build_check(st)
@@ -391,6 +393,14 @@ def _check(prop, tier, replay, spec, seed, jobs, t0, scratch, env, known):
         print('INCONCLUSIVE property=%s reason=build' % prop)
         return 2
 
+    if replay and replay.endswith('.e5'):
+        import e5
+        v, out = e5.replay_file(replay)
+        print(out)
+        if v == 'FAIL':
+            print('VIOLATION property=%s replay=%s' % (prop, replay))
+            return 1
+        return 0
     if replay:
         st = stages[0]
         base = os.path.basename(replay)
@@ -428,6 +438,8 @@ def _check(prop, tier, replay, spec, seed, jobs, t0, scratch, env, known):
     for st in stages:
         if tier == 'quick' and st.get('thorough_only'):
             continue
+        if st.get('engine') == 'mpiexec':
+            continue
         exe = exes[(st['harness'], st.get('variant', 'core'))]
         tag = stage_tag(st)
         for tp in sorted(glob.glob(os.path.join(VERIF, 'replay', prop, tag, '*.tape'))):
@@ -439,12 +451,15 @@ def _check(prop, tier, replay, spec, seed, jobs, t0, scratch, env, known):
     for si, st in enumerate(stages):
         if tier == 'quick' and st.get('thorough_only'):
             continue
-        exe = exes[(st['harness'], st.get('variant', 'core'))]
+        exe = exes.get((st['harness'], st.get('variant', 'core')))
         par = dict(st.get('common', {}))
         par.update(st.get(tier, {}))
         if par.get('skip'):
             continue
-        if st.get('engine') == 'libfuzzer':
+        if st.get('engine') == 'mpiexec':
+            import e5
+            rep = e5.run_e5_stage(prop, st, par, seed, jobs, scratch, env)
+        elif st.get('engine') == 'libfuzzer':
             rep = run_libfuzzer_stage(prop, st, par, seed, jobs, scratch, env)
         else:
             rep = run_rc_stage(prop, st, par, exe, seed, jobs, scratch, env, si)
@@ -475,6 +490,11 @@ def _check(prop, tier, replay, spec, seed, jobs, t0, scratch, env, known):
         oks = 0
         outs = ''
         for _ in range(3):
+            if st.get('engine') == 'mpiexec':
+                import e5
+                vv, outs = e5.replay_file(tp)
+                oks += vv == 'FAIL'
+                continue
             vv, outs = replay_once(exe, prop, tp, stage_env(env, st), case_timeout=st.get('replay_case_timeout', 120))
             if failing(vv, st):
                 oks += 1
